@@ -134,7 +134,7 @@ func c07Spec() *propSpec {
 	s := chainSpec("C07", "fault_enumeration")
 	s.Chunk = 3
 	s.Quick = tierParams{Runs: 110, BudgetS: 80, PerRunS: 300, ShrinkAttempts: 80, ShrinkS: 120}
-	s.Thorough = tierParams{Runs: 4000, BudgetS: 1500, PerRunS: 1200, ShrinkAttempts: 300, ShrinkS: 400}
+	s.Thorough = tierParams{Runs: 4000, BudgetS: 1500, PerRunS: 2400, ShrinkAttempts: 300, ShrinkS: 400}
 	s.Rule = "one case = a chain history as in C06 (extend the tip, save through Idle/Save with paced and unpaced snapshot writers, blocks arriving while a save is running, reorganisations after a completed save, invalid side blocks, data-file roll-over, clean restarts) executed once under the deterministic scheduler with the complete file-system effect log recorded; then the data directory as the kernel had it just before effect k is materialised (every k in thorough; a seeded subset weighted towards renames/removes/creates, index records, flag bytes and effects of background goroutines in quick), opened by a fresh node through the library recovery path or the client's start-up loop, judged (opens; tip is a ledger-valid block delivered before the crash; unspent set = replay of that tip), re-fed the whole history (same final work and exact unspent set as the uninterrupted run) . evaluations = histories + crash images recovered; distinct_nontrivial = distinct (schedule-trace hash, final state) among runs with >= 1 crash image."
 	s.Assumptions = append(s.Assumptions, "process-death crash model: what was handed to the kernel survives, user-space buffers do not; no power-loss reordering", "after a crash an equally valid tip of equal work is accepted as 'same final state' (first-seen order is not durable)")
 	s.ExpectProbes = []string{"crash_in_snapshot_save", "crash_between_utxo_renames", "crash_in_undo_write", "crash_before_index_record", "crash_before_block_data", "crash_in_background_goroutine", "reorg_after_snapshot"}
